@@ -4,3 +4,4 @@ import TakVerif.Impl.Bitboard
 import TakVerif.Impl.Position
 import TakVerif.Impl.Move
 import TakVerif.Spec.Tak
+import TakVerif.Spec.Shapes
